@@ -576,6 +576,35 @@ func runC01(c *fw.Ctx) {
 	}
 	c.Family("encoding")
 
+	// ---- family: a deviating stream followed by plain ones (stale state in recycled frame objects) ----
+	for req := range c01Vocab {
+		var devs []c01Plan
+		for _, pad := range []int{-1, 0, 255} {
+			for _, prio := range []string{"dep0", "depother-excl"} {
+				p := basePlan(req)
+				p.Pad, p.Prio = pad, prio
+				devs = append(devs, p)
+			}
+		}
+		ps := basePlan(req)
+		ps.Splits = []int{5, 9}
+		devs = append(devs, ps)
+		pp := basePlan(req)
+		pp.Pad = 7
+		if pp.EndOn == "data" {
+			pp.PadData = []int{9}
+		}
+		devs = append(devs, pp)
+		for _, d := range devs {
+			for other := range c01Vocab {
+				for _, prelude := range []string{"", "two-completed"} {
+					do(c01Scenario{Family: "then-plain", Prelude: prelude, Plans: []c01Plan{d, basePlan(other), basePlan(req)}})
+				}
+			}
+		}
+	}
+	c.Family("then-plain")
+
 	// ---- family: response shapes, one stream ----
 	for ri := range c01Resps {
 		for req := range c01Vocab {
